@@ -19,7 +19,7 @@ class C13(PropertyCheck):
         return [Case(fsgen.expand_corpus_line(c.line), "corpus") for c in PropertyCheck.corpus(self)]
 
     def generate(self, rng, tier):
-        n = 500 if tier == "quick" else 4000
+        n = 3000 if tier == "quick" else 30000
         return fsgen.gen_cases(rng, tier, "c13", n, "listing-histories")
 
     def nontrivial(self, case, impl_out):
@@ -28,6 +28,9 @@ class C13(PropertyCheck):
     def oracle(self, case, impl_out, profile):
         _, c = fsgen.parse_case(case.line)
         return fsgen.check_history(c, impl_out)
+
+    def agree(self, case, impl_out, model_out, profile):
+        return fsgen.agree(impl_out, model_out)
 
     def shrink_candidates(self, case):
         return fsgen.shrink_case(case)
